@@ -89,7 +89,7 @@ def check(run):
         nh = 300 if tier == "thorough" else 60
         hist = os.path.join(wd, "hist.ndjson")
         rc, out, err = lib.run_drive(drive_race, ["session-conc", "-out", hist, "-histories", str(nh), "-seed", str(seed),
-                                                  "-threads", "16" if tier == "thorough" else "6", "-ops", "5", "-ids", json.dumps(ids)])
+                                                  "-threads", "9" if tier == "thorough" else "6", "-ops", "5", "-ids", json.dumps(ids)])
         if "DATA RACE" in err:
             run.violation("data race reported by the Go race detector in concurrent session use",
                           files={"race.txt": err[:20000]})
